@@ -196,6 +196,15 @@ func (p c07) RunBatch(c *fw.Ctx) {
 			table = append(table, "x = "+a+"; func f() {"+name+"(x)}; f()", "x = "+a+"; y = 1; func f() {"+name+"(y, x)}; f()")
 		}
 	}
+	// info read at every kind of call depth: called from another function, from a closure made two calls deep and called from
+	// the top level, from recursion, from loops (its stack has one entry per lexical level, whoever the caller is)
+	for _, use := range []string{"info", "info.stack", "info.globals", "len(info.stack)", "println(info.stack)", "info.stack[0]", "[info, info]", "x = info; x.stack"} {
+		for _, shape := range []string{"func f() {%s}; func g() {f()}; g()", "func a() {func b() {() => %s}; b()}; a()()", "func f() {%s}; (() => f())()", "func r(n) {if n == 0 {return %s}; r(n - 1)}; r(3)",
+			"f = () => %s; func g() {func h() {f()}; h()}; g()", "for i = 2 {func lf() {%s}; lf()}", "func mk() {v = 1; () => {w = 2; () => %s}}; mk()()()", "func g(cb) {cb()}; func f() {q = 1; g(() => %s)}; f()",
+			"func d3() {%s}; func d2() {z = 1; d3()}; func d1() {y = 1; d2()}; d1()"} {
+			table = append(table, fmt.Sprintf(shape, use))
+		}
+	}
 	// every extension handed containers whose map KEYS are of every kind (native conversion of keys: json, sprintf, keys, ...)
 	for _, name := range names {
 		for _, a := range V {
